@@ -8,6 +8,7 @@ import (
 	"go/token"
 	"go/types"
 	"reflect"
+	"strconv"
 
 	"golang.org/x/tools/go/ssa"
 )
@@ -457,6 +458,11 @@ func init() {
 		}
 		src := rV2T(args[0]).t
 		dst := args[1].(iface).v.(rtype).t
+		if n, ok := sliceToArrayLen(src, dst); ok {
+			// reflect: a slice converts to an array (pointer) only if it is long enough
+			sl, _ := rV2V(args[0]).([]value)
+			return canConvert(src, dst) && int64(len(sl)) >= n
+		}
 		return canConvert(src, dst)
 	})
 	reg("(reflect.Value).Convert", "interpreter conversion rules", func(fr *frame, args []value) value {
@@ -471,6 +477,20 @@ func init() {
 		v := rV2V(args[0])
 		if isInterfaceType(dst) {
 			return makeReflectValue(dst, boxFor(dst, src, v))
+		}
+		if n, ok := sliceToArrayLen(src, dst); ok {
+			sl, _ := v.([]value)
+			if int64(len(sl)) < n {
+				reflectPanic("reflect: cannot convert slice with length " + strconv.Itoa(len(sl)) + " to array (pointer) with length " + strconv.FormatInt(n, 10))
+			}
+			// model: the array is a copy of the first n elements (aliasing with the slice is not modelled)
+			arr := make(array, n)
+			copy(arr, sl[:n])
+			if _, isPtr := dst.Underlying().(*types.Pointer); isPtr {
+				var cell value = arr
+				return makeReflectValue(dst, &cell)
+			}
+			return makeReflectValue(dst, arr)
 		}
 		if types.Identical(src.Underlying(), dst.Underlying()) {
 			return makeReflectValue(dst, v)
@@ -749,6 +769,24 @@ func init() {
 		}
 		return int(a.Len())
 	})
+}
+
+// sliceToArrayLen: src is a slice and dst an array or pointer to array; returns the array length.
+func sliceToArrayLen(src, dst types.Type) (int64, bool) {
+	if src == nil || dst == nil {
+		return 0, false
+	}
+	if _, ok := src.Underlying().(*types.Slice); !ok {
+		return 0, false
+	}
+	d := dst.Underlying()
+	if p, ok := d.(*types.Pointer); ok {
+		d = p.Elem().Underlying()
+	}
+	if a, ok := d.(*types.Array); ok {
+		return a.Len(), true
+	}
+	return 0, false
 }
 
 func canConvert(src, dst types.Type) bool {
